@@ -13,7 +13,7 @@ EXPLANATION = (
     "R9.4 external subcommands: values stored verbatim (to_os_string of RawArgs::remaining items) and the parse returns "
     "right after. R9.5 short flag-subcommand resume: parse_short_arg reads flag_subcmd_skip once, resets it to 0 and then "
     "advances the cluster by that amount; the parent records flag_subcmd_skip only together with the backward seek. "
-    "R9.6 (shared with C08) the recognisers behind find_subcommand / find_short_subcmd / find_long_subcmd answer to the primary name or flag or ANY alias on every path. NOT decided: agreement of values at every level for all trees (needs execution)."
+    "R9.6 (shared with C08) the recognisers behind find_subcommand / find_short_subcmd / find_long_subcmd answer to the primary name or flag or ANY alias on every path. R9.7 parse_long_arg checks for a long flag-subcommand before the positional allow_hyphen_values fallback. NOT decided: agreement of values at every level for all trees (needs execution)."
 )
 TRUSTED = ["rustc MIR", "clapfacts"]
 ASSUMPTIONS = ["FlatMap::insert replaces an existing entry"]
@@ -155,3 +155,14 @@ def run(ctx):
     # ---- R9.6 (shared with C08 R8.2b) dispatch by alias: the *_aliases_to siblings consult every alias on every path
     from rules.c08 import alias_siblings
     alias_siblings(fx, res, "R9.6")
+
+    # ---- R9.7 a long flag-subcommand is recognised before the token is offered to a hyphen-accepting positional
+    pl = fx.body("clap_builder::parser::parser::Parser::parse_long_arg")
+    mh = [i for i, j, s_ in pl.stmts() if s_["k"] == "assign" and s_["rv"]["k"] == "agg" and s_["rv"].get("variant") == "MaybeHyphenValue"
+          and any(re.match(r"^T:unwrap_or_default\(map\(get\(get_keymap\(self\.cmd\),pos_counter\)", g) for g in guard_strs(pl, i))]
+    fs = pl.calls_to(r"Parser::possible_long_flag_subcommand$")
+    require(fx, res, "R9.7", "long-flag-subcommand-recognised", pl, r"Parser::possible_long_flag_subcommand$", len(fs), 1, "parse_long_arg no longer looks for long flag-subcommands")
+    for i in mh:
+        res.check(any(re.match(r"^!V1:possible_long_flag_subcommand\(", g) for g in guard_strs(pl, i)), "R9.7", "flag-subcommand-before-positional-hyphen", "%s bb%d" % (pl.where(), i),
+                  "the positional hyphen-value fallback applies only when the token is no long flag-subcommand",
+                  "parse_long_arg hands `--name` to a hyphen-accepting positional before checking whether it is a long flag-subcommand: the subcommand named on argv is not dispatched to")
